@@ -11,15 +11,19 @@ from flat import _import_transitions
 PID = 'C11'
 KIND = 4
 IMPL = ('c11', 'impl')
-COUNTS = dict(quick=500, thorough=15000)
-RULE = ('cases = random flat machines (about 3 of 4 cases: model_attribute state/st/mode/my_state, auto_transitions on/off, '
+COUNTS = dict(quick=800, thorough=16000)
+RULE = ('cases = random flat machines (2 of 4 cases: model_attribute state/st/mode/my_state, auto_transitions on/off, '
         'model_override on/off, ignore_invalid_triggers on/off, string or Enum states, 0-4 states, 0-4 transitions with '
         'wildcard / list sources, reflexive / internal / named destinations and constant conditions, 0-2 models whose '
         'classes / instances already define 0-5 attributes named like helpers (is_*, to_*, may_*, event names, trigger) '
         'with callable or None values) followed by 2-8 operations (helper / event-method / trigger(name) calls, '
         'add_states, add_transition, remove_transition, add_model); and hierarchical machines (separators _ . /, nested '
         'and parallel states, string or Enum states, 1-2 models with clashing attributes, configurations set through '
-        'set_state, add_states / add_transition / remove_transition / add_model). After the constructor and after '
+        'set_state and add_model; 1 of 4 cases) and hierarchical reconfiguration histories (1 of 4 cases: events declared '
+        'at the machine, inside state dicts through the transitions key, and through embedded machines, then 3-9 '
+        'operations add_transition / remove_transition with and without source / dest filters / add_states / add_model '
+        '/ set_state / event calls, checked after every operation against an independent reference relation and the '
+        'clauses R, H, E, T, G of harness/c11_hrec.py). After the constructor and after '
         'every operation every model is introspected (dir(), every helper called, every trigger(e)/may_trigger(e), '
         'is_*/to_* per state) and the machine queried (get_triggers per state, get_transitions for 4-8 queries). '
         'One flat case in five also asks for an event named like the state attribute (in a history or in the '
@@ -27,7 +31,9 @@ RULE = ('cases = random flat machines (about 3 of 4 cases: model_attribute state
         'unregistered destinations, duplicate states, removal of unknown or auto transitions). '
         'Non-trivial: at least one model is registered and either a helper name clashed with an attribute of the '
         'model, or an operation after the constructor changed the helper table or the answers of get_triggers.')
-ASSUMPTIONS = ['callbacks are not part of this property: conditions are constants, no callback raises',
+ASSUMPTIONS = ['hierarchical reconfiguration histories are checked by a harness oracle against a reference relation '
+               'kept in Python (no Coq model of nested scopes); segment names are unique in the tree',
+               'callbacks are not part of this property: conditions are constants, no callback raises',
                'Enum states behave like string states of the same names in flat machines (the Coq model is by name)',
                'Python attribute lookup (instance dict before class) and functools.partial']
 THEOREMS = ['C11_exactly_one_flat', 'C11_no_overwrite', 'C11_no_overwrite_refuted', 'C11_not_attr',
@@ -91,6 +97,9 @@ def enc(case):
         return [0, [sx_str(c['attr']), bool(c['auto']), bool(c['over']), bool(c['ignore'])], case['nctor'],
                 [enc_op(o) for o in case['ops']],
                 [[sx_str(t), sx_str(s), sx_str(d)] for t, s, d in case['queries']]]
+    if case['kind'] == 'hrec':
+        import c11_hrec
+        return c11_hrec.enc(case)
     import c11_hsm
     return c11_hsm.enc(case)
 
@@ -242,6 +251,9 @@ class FlatGen(object):
 
 def gen(rng, i, tier):
     malformed = (i % 8 == 7)
+    if i % 4 == 1:
+        import c11_hrec
+        return c11_hrec.gen(rng, i % 8 == 5)
     if i % 4 == 3:
         try:
             import c11_hsm
@@ -513,6 +525,9 @@ class FlatRunner(object):
 def impl(case):
     if case['kind'] == 'flat':
         return FlatRunner(case).run()
+    if case['kind'] == 'hrec':
+        import c11_hrec
+        return c11_hrec.impl(case)
     import c11_hsm
     return c11_hsm.impl(case)
 
@@ -525,6 +540,8 @@ def _canon_model(mo):
 
 def canon(case, obs):
     if not isinstance(obs, list) or obs[0] != 1:
+        return obs
+    if case['kind'] == 'hrec':
         return obs
     if case['kind'] != 'flat':
         import c11_hsm
@@ -543,6 +560,8 @@ def _helper_like(n):
 
 
 def in_envelope(case):
+    if case['kind'] == 'hrec':
+        return True
     if case['kind'] != 'flat':
         import c11_hsm
         return c11_hsm.in_envelope(case)
@@ -579,6 +598,9 @@ def kf_remove_class(case):
     """KF-C11-1: remove_transition(trigger) where the attribute `trigger` of some model of the case is not
     the machine's own helper in the instance dict (the model defined it itself, or — with model_override —
     did not define it so that no helper was bound)."""
+    if case['kind'] == 'hrec':
+        import c11_hrec
+        return c11_hrec.kf_remove_class(case)
     if case['kind'] != 'flat':
         import c11_hsm
         return c11_hsm.kf_remove_class(case)
@@ -595,6 +617,10 @@ def kf_remove_class(case):
 
 
 def classify_known(case, model_obs, impl_obs):
+    if case['kind'] == 'hrec':
+        # the model's answer is "no clause fails": a disagreement is an oracle failure
+        import c11_hrec
+        return 'KF-C11-1' if c11_hrec.only_kf1_failures(case, impl_obs) else None
     if model_obs is not None:
         return None            # a disagreement between model and implementation is never a known finding
     if case['kind'] == 'flat' and kf_remove_class(case):
@@ -610,6 +636,9 @@ def oracle(case, obs):
     """the clauses of C11 evaluated directly on the implementation's observation (in-envelope cases)"""
     if not isinstance(obs, list) or obs[0] != 1 or not in_envelope(case):
         return None
+    if case['kind'] == 'hrec':
+        import c11_hrec
+        return c11_hrec.oracle(case, obs)
     if case['kind'] != 'flat':
         import c11_hsm
         return c11_hsm.oracle(case, obs)
@@ -690,6 +719,9 @@ def oracle(case, obs):
 def nontrivial(case, obs):
     if not isinstance(obs, list) or obs[0] != 1:
         return False
+    if case['kind'] == 'hrec':
+        import c11_hrec
+        return c11_hrec.nontrivial(case, obs)
     if case['kind'] != 'flat':
         import c11_hsm
         return c11_hsm.nontrivial(case, obs)
@@ -718,6 +750,9 @@ def stats(case, obs, dist):
     if not isinstance(obs, list) or obs[0] != 1:
         bump('constructor_raised' if isinstance(obs, list) and obs[0] == 2 else 'undecodable')
         return
+    if case['kind'] == 'hrec':
+        import c11_hrec
+        return c11_hrec.stats(case, obs, dist)
     if case['kind'] != 'flat':
         import c11_hsm
         return c11_hsm.stats(case, obs, dist)
@@ -745,6 +780,16 @@ def stats(case, obs, dist):
 
 
 def shrink_candidates(case):
+    if case['kind'] == 'hrec':
+        for i in range(len(case['ops']) - 1, -1, -1):
+            c = copy.deepcopy(case)
+            del c['ops'][i]
+            yield c
+        for i in range(len(case['root_trans'])):
+            c = copy.deepcopy(case)
+            del c['root_trans'][i]
+            yield c
+        return
     if case['kind'] != 'flat':
         return
     n = case['nctor']
